@@ -407,14 +407,14 @@ CHECKS["C10"] = {
     "level": "exploration",
     "rule": "A history plan drawn up front by rapid: MaxConns 1..4; MaxConnWaitTimeout in {0, 30 ms, 300 ms}; 1..6 goroutines x 1..6 calls of the real HostClient.Do; per call: method (GET/PUT retryable, POST not), 40 ms read timeout or none, context live / cancelled before / cancelled 5 ms into the call, a delay of 0..3 ms before the call, and the fault of the exchange that serves it "
             "{ok, ok + Connection: close, ok then silent close, close before first byte, close mid-header, close mid-body, stall 130 ms (past the read timeout), 100-continue then ok}; per dial {ok, error, 15 ms slow}. Connections are in-memory pipes (with TCP-like write semantics) served by scripted peer goroutines that parse requests with the strict reader and answer by request id. "
-            "Non-trivial = >= 2 goroutines contending for fewer connections than goroutines with >= 1 fault or cancellation; distinct by FNV-64 of the plan. Further dimensions: whole-request timeouts (300 ms) and the fault \"silent 180 ms then close, stall when the request is repeated\"; calls through HostClient.GetTimeout (the exchange outlives the caller); MaxConnDuration 1/4 ms (the client announces Connection: close); a rapid-drawn table of yields/sleeps applied at the pool lock boundaries through hook H2. A scheduling heartbeat gates every wall-clock verdict.",
+            "Non-trivial = >= 2 goroutines contending for fewer connections than goroutines with >= 1 fault or cancellation; distinct by FNV-64 of the plan. Further dimensions: whole-request timeouts (300 ms) and the fault \"silent 180 ms then close, stall when the request is repeated\"; calls through HostClient.GetTimeout (the exchange outlives the caller); MaxConnDuration 1/4 ms (the client announces Connection: close); a rapid-drawn table of yields/sleeps applied at the pool lock boundaries through hook H2. A scheduling heartbeat gates every wall-clock verdict. Round 4: the close option of a response is spelled one of 7 ways (case, token lists, two Connection lines); ResponseBodyStream on/off per history with response bodies padded to 100 B..40 KB (8192/8193 included) and close-mid-body cutting them in half, i.e. inside or behind the 8 KiB a streaming client reads before it returns.",
     "assumptions": [
         "schedules are sampled by real-time perturbation, not enumerated; rapid cannot shrink a schedule-dependent failure, the full history is printed instead",
         "timeouts are asserted as 'returns within T + 2 s' (pure scheduling slack); conservation is polled for up to 3 s before it counts as a leak",
         "stale waiter-queue entries are swept by one final clean request before the queue is required to be empty (the queue is cleaned lazily by design)",
         "a call made with an already cancelled context may fail or succeed",
     ],
-    "level_text": "Random concurrent histories against history invariants: every successful call got the response to its own request id; a peer never receives a second request before answering the first, nor any request on a connection that carried Connection: close or a client-side timeout; ConnPoolState().TotalConnNum <= MaxConns at every dial (the connection being dialed is already counted) and in a 200 us sampler; a connection on which the client announced Connection: close is closed by the client; a call with a request timeout returns within it (+2 s, or +100 ms while the scheduling heartbeat is below 20 ms); a POST is received at most once; calls with a read timeout return; at quiescence PendingRequests()==0, counted connections == pooled, dialed == closed + pooled, no waiter queued.",
+    "level_text": "Random concurrent histories against history invariants: every successful call got the response to its own request id; a peer never receives a second request before answering the first, nor any request on a connection that carried Connection: close or a client-side timeout; ConnPoolState().TotalConnNum <= MaxConns at every dial (the connection being dialed is already counted) and in a 200 us sampler; a connection on which the client announced Connection: close is closed by the client; a connection whose exchange the peer ended inside the response (before the first byte, inside the header, inside the body) has been closed by the client once all calls returned, whatever the caller did with a streamed body; a call with a request timeout returns within it (+2 s, or +100 ms while the scheduling heartbeat is below 20 ms); a POST is received at most once; calls with a read timeout return; at quiescence PendingRequests()==0, counted connections == pooled, dialed == closed + pooled, no waiter queued.",
     "level_note": "Sampled schedules on a 16-core machine (thorough tier also under the race detector); the peer and pipe model are part of the trusted base.",
     "technique": "property-based testing of concurrent histories (rapid-generated plans, fault injection by a scripted peer) against history invariants",
     "nontrivial_floor": 20,
